@@ -428,6 +428,10 @@ async fn scenario(a: &ShardArgs, idx: u64) {
             if waiting {
                 out::count("state_sol_confirm_wait_reached", 1);
             }
+            pending = s
+                .last()
+                .filter(|f| f.len() >= 2 && f[0] & ra::CON != 0 && f[0] & ra::FIN == 0)
+                .map(|f| f[0] & 0x0F);
         }
         seq = (seq + r.range(1, 3) as u8) & 0x0F;
         let req = gen::c12_request(&mut r, seq, cfg.unsolicited, cfg.rx);
@@ -637,10 +641,14 @@ async fn scenario(a: &ShardArgs, idx: u64) {
             k += s.len();
             last = s.last().cloned();
         }
-        pending = last
-            .as_ref()
-            .filter(|f| f.len() >= 2 && f[0] & ra::CON != 0 && f[0] & ra::FIN == 0)
-            .map(|f| f[0] & 0x0F);
+        // which solicited confirm the outstation is waiting for now. A fragment that drew no solicited response and
+        // let no virtual time pass (a CONFIRM of either kind, something ignored) leaves an earlier wait as it was
+        if !(sol.is_empty() && !deferred) {
+            pending = last
+                .as_ref()
+                .filter(|f| f.len() >= 2 && f[0] & ra::CON != 0 && f[0] & ra::FIN == 0)
+                .map(|f| f[0] & 0x0F);
+        }
         if out::sample_count() < 3 && !sol.is_empty() {
             out::sample(J::obj(vec![
                 ("state", J::s(state)),
